@@ -1273,7 +1273,14 @@ class FilePackIndex(PackIndex):
         else:
             start = self._fan_out_table[idx - 1]
         end = self._fan_out_table[idx]
-        i = bisect_find_sha(start, end, sha, self._unpack_name)
+        # The fan-out entry counts the names whose first byte is <= idx, so
+        # ``end`` is one past the last name of the group, while
+        # bisect_find_sha takes an inclusive upper bound. Searching up to
+        # ``end`` itself would also probe the name of the next group, or,
+        # for the last group, whatever bytes follow the name table.
+        if start == end:
+            raise KeyError(sha)
+        i = bisect_find_sha(start, end - 1, sha, self._unpack_name)
         if i is None:
             raise KeyError(sha)
         return self._unpack_offset(i)
